@@ -11,7 +11,9 @@ from ..runner import Acc, h8, scratch_dir
 LEVEL = "exploration"
 RULE = (
     "all labels up to length L and all directory names up to length D over the alphabet "
-    "{a A b % _ \\\\ . 0 - é /} (valid file labels only); each selection site is called through its "
+    "{a A b % _ \\\\ . 0 - é [ ] /} (valid file labels only; directories that hold a complete "
+    "wildcard cannot be declared as trees and are left out at the tree sites); the removed-"
+    "directory site also over paths recorded only as glob matches; each selection site is called through its "
     "real entry point on a real Workflow database filled with the labels; the selected set must "
     "equal {label : label.startswith(directory + '/')}; non-trivial: a (directory, label) pair "
     "where the label shares a case-folded or wildcard-expanded prefix with the directory"
